@@ -424,6 +424,21 @@ func extractValidate(p *pkg, fields []cfgField) ([]cfgGuard, bool) {
 		cfail("function Config.Validate not found")
 		return nil, false
 	}
+	// since the repair of D45 (recursive read lock) Validate is `RLock; defer RUnlock; return c.validateLocked()` and the guard
+	// chain lives in validateLocked (which SaveManifest calls under its own lock): follow that one delegation, pin its shape
+	F.Facts["config.Validate.shape"] = "direct"
+	if l := fd.Body.List; len(l) == 3 {
+		if rs, ok := l[2].(*ast.ReturnStmt); ok && len(rs.Results) == 1 && isCallTo(rs.Results[0], recvName(fd)+".validateLocked") {
+			es, ok1 := l[0].(*ast.ExprStmt)
+			ds, ok2 := l[1].(*ast.DeferStmt)
+			if ok1 && ok2 && isCallTo(es.X, recvName(fd)+".mu.RLock") && isCallTo(ds.Call, recvName(fd)+".mu.RUnlock") {
+				if inner := p.findFunc("Config.validateLocked"); inner != nil && inner.Body != nil {
+					F.Facts["config.Validate.shape"] = "mu.RLock ; defer mu.RUnlock ; return validateLocked()"
+					fd = inner
+				}
+			}
+		}
+	}
 	if fd.Type.Params != nil && len(fd.Type.Params.List) != 0 {
 		cfail("Validate takes parameters: outside the supported subset")
 		return nil, false
@@ -839,10 +854,10 @@ func extractConfig(repo string) {
 	cfgT.ok = gok && dok && len(fields) > 0
 
 	// --- SaveManifest: validate first, then write a temp file and rename it over MANIFEST
-	F.Facts["config.SaveManifest.order"] = p.callOrder("Config.SaveManifest", ".Validate", "os.MkdirAll", "json.MarshalIndent", "json.Marshal", "os.WriteFile", "writeFileSync", "os.Create", "os.OpenFile", "os.Rename")
+	F.Facts["config.SaveManifest.order"] = p.callOrder("Config.SaveManifest", "mu.RLock", ".validateLocked", "os.MkdirAll", "json.MarshalIndent", "json.Marshal", "os.WriteFile", "writeFileSync", "os.Create", "os.OpenFile", "os.Rename")
 	// the temp file is written AND synced before the rename publishes it (repair: manifest renamed into place unsynced)
 	F.Facts["config.writeFileSync.order"] = p.callOrder("writeFileSync", "os.OpenFile", "os.Create", ".Write", ".Sync", ".Close")
-	F.Facts["config.SaveManifest.validate"] = p.ifHeaderOfCall("Config.SaveManifest", recvOf(p, "Config.SaveManifest")+".Validate")
+	F.Facts["config.SaveManifest.validate"] = p.ifHeaderOfCall("Config.SaveManifest", recvOf(p, "Config.SaveManifest")+".validateLocked")
 	F.Facts["config.SaveManifest.manifestPath"] = p.assignedExpr("Config.SaveManifest", "manifestPath")
 	F.Facts["config.SaveManifest.tempPath"] = p.assignedExpr("Config.SaveManifest", "tempPath")
 	F.Facts["config.SaveManifest.marshal"] = p.callArgText("Config.SaveManifest", "json.MarshalIndent")
